@@ -196,6 +196,10 @@ def sameList (a b : Rec R) : Bool :=
     is not touched. -/
 def clone (r : Rec R) : Rec R := ⟨r.number, r.history, r.index⟩
 
+/-- `Clone::clone_from` — `Record` does not override the trait's default `*self = source.clone()`:
+    whatever the destination held is replaced by the clone. -/
+def cloneFrom (_dst src : Rec R) : Rec R := src.clone
+
 /-- `Record::from_existing` (differentiation.rs:547): "the inputs are not checked for validity". -/
 def fromExisting (number : R × Nat) (history : Option Nat) : Rec R := ⟨number.1, history, number.2⟩
 
@@ -620,6 +624,9 @@ end Real
 
 /-- `Clone for Trace` (trace_operations.rs:76). -/
 def clone (a : Dual R) : Dual R := ⟨a.number, a.derivative⟩
+
+/-- `Clone::clone_from`, the trait's default `*self = source.clone()` -/
+def cloneFrom (_dst src : Dual R) : Dual R := src.clone
 
 /-- `Display for Trace` (trace_operations.rs:46): the number. -/
 def display (render : R → String) (a : Dual R) : String := render a.number
